@@ -477,7 +477,36 @@ def archive_contracts(ge_returns_for):
         generator=True, raises=[],
         ensures=[("at-most-one-dispatch-to-get_extractor(basename)-with-path=archive!/member", pe_dispatch)],
         note="an archive member is handed to exactly the extractor the router gives for its base name"))
-    return out
+    # The two cache wrappers are modular lemmas for their callers.  When a wrapper no longer exists under that name (renamed,
+    # merged, inlined) there is nothing to prove about it: its callers (_should_skip_file, _process_archive_entry) are then
+    # verified with the body of whatever they call instead (helpers without contract are executed in place).
+    have = loader.module(ARCH).functions
+    return [c for c in out if c.target.split("::")[1] not in OPTIONAL_WRAPPERS or c.target.split("::")[1] in have]
+
+
+OPTIONAL_WRAPPERS = ("_is_supported_file_cached", "_get_file_extractor_cached")
+
+
+def absent_wrappers(repo, tier):
+    """vacuity-guard bookkeeping for OPTIONAL_WRAPPERS: the locked obligations of a wrapper that no longer exists hold
+    vacuously (no such function); listed so that they are visibly not 'missing'."""
+    import json as _json
+    import os as _os
+    from pyvc.flow import ground_obligation
+    have = loader.module(ARCH, repo).functions
+    gone = [w for w in OPTIONAL_WRAPPERS if w not in have]
+    out = []
+    if gone:
+        try:
+            lock = _json.load(open(_os.path.join(_os.path.dirname(_os.path.dirname(_os.path.abspath(__file__))), "obligations.lock.json"))).get("C07", {})
+        except (OSError, ValueError):
+            lock = {}
+        for w in gone:
+            for oid in sorted(lock):
+                if oid.startswith(f"C07/archive_extractor.py::{w}/"):
+                    out.append(ground_obligation(oid, True, f"no function {w} in the tree: nothing to prove; its former callers are verified with "
+                                                 "the bodies of the helpers they call", ARCH, kind="vacuous", backend="ground"))
+    return {"obligations": out, "functions": []}
 
 
 # inline_local: small private helpers of the same module are executed in place (survives "extract helper" refactorings)
@@ -722,7 +751,6 @@ def _policy(repo, tier):
       f"{len(rows)} rows; bad={bad}; undecided={unsure}", definite=bool(bad))
     # dispatch sites reuse the router
     P = lambda oid, ok, why="": obls.append(ground_obligation(oid, ok, why or "call-site shape not recognised", "call-sites", definite=False))
-    obls.extend(member_sites(repo, fns))
     obls.extend(table_policies(repo))
     return {"obligations": obls, "functions": fns}
 
@@ -808,9 +836,75 @@ def table_policies(repo):
     return out
 
 
-def member_sites(repo, fns):
+MEMBER_LOOPS = {"_extract_from_zip_optimized": ("_extract_from_zip_optimized",),
+                "_extract_from_tar_optimized": ("_extract_from_tar_optimized",),
+                "_extract_from_7z_optimized": ("_extract_from_7z_optimized", "_process_7z_files_sequential")}
+MEMBER_CLAUSES = ("#selects-the-", "#each-", "#selected-members-")     # the selection / dispatch clauses of the member loops
+
+
+def member_loops(repo, tier):
+    """Callers of the member contracts, one obligation per archive format: the (name, base name) pair the skip rule tests is
+    the pair the member is dispatched under, base name = os.path.basename(name), dispatch only after a False skip rule.
+    Two independent, sound ways to establish it -- either suffices:
+      (a) dataflow on the real AST (contracts/C07_sites.py: copy propagation, guard polarity, work-list positions);
+      (b) the member loop symbolically executed by the engine under the archive pack's loop invariants
+          (contracts/C10.py::member_contracts: kept <=> not SKIP(name, BASENAME(name)), each kept member dispatched with
+          (name, bytes, archive path, BASENAME(name)); helpers without contract are executed in place), of which C07 takes the
+          selection / dispatch clauses.  This one does not care how the loop body is factored (extracted helpers, Optional
+          results instead of `continue`, ...).
+    Neither established: `unknown` (a counter-model of (b) starts from a havocked loop state and is not a definite
+    counterexample): the native archive replay decides."""
+    from pyvc import verify
+    from pyvc.contracts import Registry
+    from pyvc.exctypes import Universe
+    from pyvc.flow import ground_obligation
     from contracts import C07_sites
-    return C07_sites.member_sites(repo, fns)
+    fns = []
+    syn = {o["id"]: o for o in C07_sites.member_sites(repo, fns)}
+    out = []
+    sem_cache = {}
+
+    def semantic(q):
+        from contracts import C10
+        if "reg" not in sem_cache:
+            reg = Registry()
+            cs = C10.contracts(reg)
+            for c in cs:
+                reg.add(c)
+            sem_cache["reg"], sem_cache["cs"] = reg, {c.target: c for c in cs}
+        notes, ok = [], True
+        for g in MEMBER_LOOPS[q]:
+            target = f"{ARCH}::{g}"
+            c = sem_cache["cs"].get(target)
+            if c is None:
+                return False, [f"{g}: no loop contract"]
+            rep = verify.run_contract("C07", c, sem_cache["reg"], Universe(repo), repo=repo, timeout_ms=60000 if tier == "thorough" else None,
+                                      executor_cls=C10.EXECUTOR, executor_kw=C10.EXECUTOR_KW.get(target))
+            if rep.error or rep.out_of_subset:
+                return False, [f"{g}: {(rep.error or rep.out_of_subset)[:160]}"]
+            mine = [o for o in rep.obligations if any(k in o["id"] for k in MEMBER_CLAUSES)]
+            if not mine:
+                return False, [f"{g}: selection / dispatch clauses not generated (loop role not recognised)"]
+            for o in mine:
+                if o["status"] != "proved":
+                    ok = False
+                    notes.append(f"{o['id'].split('::')[1]}: {o['status']}")
+        return ok, notes
+
+    for q in MEMBER_LOOPS:
+        oid = f"C07/archive_extractor.py::{q}/call-site#skip-rule-and-dispatch-see-the-same-member-name"
+        a = syn.get(oid)
+        a_ok = a is not None and a["status"] == "proved"
+        try:
+            b_ok, b_notes = semantic(q)
+        except Exception as e:  # noqa  (pack code of another pack on a changed tree: not recognised, never a crash)
+            b_ok, b_notes = False, [f"{type(e).__name__}: {e}"[:160]]
+        how = ("dataflow" if a_ok else "") + ("+" if a_ok and b_ok else "") + ("loop invariants (symbolic execution)" if b_ok else "")
+        why = how if (a_ok or b_ok) else f"dataflow: {(a or {}).get('reason', 'n/a')}; symbolic: {'; '.join(b_notes)}"
+        o = ground_obligation(oid, a_ok or b_ok, why[:500], ARCH, definite=False)
+        o["backends"] = {"dataflow": int(a_ok), "z3": int(b_ok)} if (a_ok or b_ok) else {"dataflow": 1}
+        out.append(o)
+    return {"obligations": out, "functions": fns}
 
 
 def attachments_site(repo, tier):
@@ -865,7 +959,9 @@ def _guarded(fn, oid, function=None):
     return run
 
 
-EXTRA = [_guarded(policy, "C07/router.py::tables/module-invariant#tables-evaluate-to-constants"),
+EXTRA = [_guarded(absent_wrappers, "C07/archive_extractor.py::cached-router-wrappers/vacuous#absent"),
+         _guarded(policy, "C07/router.py::tables/module-invariant#tables-evaluate-to-constants"),
+         _guarded(member_loops, "C07/archive_extractor.py::member-loops/call-site#skip-rule-and-dispatch-see-the-same-member-name"),
          _guarded(attachments_site, "C07/data_types.py::EmailContent.iterate_supported_attachments/out-of-subset",
                   "sharepoint2text/parsing/extractors/data_types.py::EmailContent.iterate_supported_attachments")]
 
